@@ -11,7 +11,9 @@ import (
 )
 
 type opD struct {
-	K    string `json:"k"`              // u(pdate) | b(ad update) | g(et) | a(rtifact) | v(ersion read) | s(chema) | c(onsume a retained response slowly; P = which)
+	K    string `json:"k"`              // u(pdate) | b(ad update) | g(et) | a(rtifact) | v(ersion read) | s(chema) | c(onsume a retained response slowly; P = which) | z(ip: every artifact in one HTTP request)
+	N    int    `json:"n,omitempty"`    // sweep scripts: repeat count of an update burst
+	Side []int  `json:"side,omitempty"` // sweep scripts: producers read after every update of the burst
 	P    int    `json:"p,omitempty"`    // parameter index (u, b, g)
 	V    int    `json:"v,omitempty"`    // value code (u)
 	Prod int    `json:"prod,omitempty"` // producer index (a)
@@ -38,6 +40,7 @@ type rec struct {
 	art      artifact.Artifact
 	raw      []byte
 	g        *liveGraph
+	extra    []rec // zip request: the artifacts of the other producers in the same archive
 	lateOf   *rec  // consume op: the retained response it re-read ...
 	lateResp respD // ... and what it decoded to
 }
@@ -170,7 +173,11 @@ func coqNs(xs []int) string {
 }
 
 func coqCall(c *rec) string {
-	var op, resp string
+	return fmt.Sprintf("K %d %s %s %d %d", c.T, coqOp(c), coqResp(c.Resp), c.Inv, c.Res)
+}
+
+func coqOp(c *rec) string {
+	var op string
 	switch c.Op.K {
 	case "u":
 		op = fmt.Sprintf("(U %d %d)", c.Op.P, c.Op.V)
@@ -188,6 +195,5 @@ func coqCall(c *rec) string {
 			op = fmt.Sprintf("(AP %s%%nat [%s])", coqNs(c.F), strings.Join(bs, "; "))
 		}
 	}
-	resp = coqResp(c.Resp)
-	return fmt.Sprintf("K %d %s %s %d %d", c.T, op, resp, c.Inv, c.Res)
+	return op
 }
